@@ -366,7 +366,7 @@ func runC16(c *Ctx) {
 	cs.Cfg.RequestTimeout = config.NewDuration(r.reqTimeout)
 	cs.Cfg.MessageChannelTimeout = config.NewDuration(r.msgTimeout)
 	cs.LinkFor = func(n int) *Link {
-		return &Link{BaseLatency: time.Duration(pickFrom(t, 1, 2, 10, 40)) * time.Millisecond, Jitter: time.Duration(pickFrom(t, 0, 5, 30)) * time.Millisecond, Tape: t, Frag: t.Bool(1, 3)}
+		return &Link{BaseLatency: time.Duration(pickFrom(t, 1, 2, 10, 40)) * time.Millisecond, Jitter: time.Duration(pickFrom(t, 0, 5, 30)) * time.Millisecond, Tape: t, Frag: t.Bool(1, 3), Coalesce: t.Bool(1, 2)}
 	}
 	w := NewTxWorld()
 	prev := bitcoin.Hash32{}
